@@ -225,6 +225,9 @@ class TCPRegistryServer(RegistryServer):
         return logging.getLogger("REGSRV/TCP/%d" % (self.port,))
 
     def _recv(self):
+        # a request that got no reply (bad magic, unknown command, failed handler) left its socket behind
+        while self._connected_sockets:
+            self._connected_sockets.popitem()[1].close()
         sock2, _ = self.sock.accept()
         try:
             # an accepted socket does not inherit the listener's timeout: without one a client that
